@@ -114,13 +114,43 @@ def run(ctx, replay):
     experiments = [("kill-at-first-write-to-settings", ["-P", spath, "-e", "trace=write", "-e", "inject=write:signal=KILL:when=1"]),
                    ("kill-at-rename", ["-e", "trace=rename,renameat,renameat2", "-e", "inject=rename,renameat,renameat2:signal=KILL:when=1"]),
                    ("enospc-on-settings-write", ["-P", spath, "-e", "trace=write", "-e", "inject=write:error=ENOSPC:when=1+"])]
-    for name, sargs in experiments:
+    experiments = [(n, a, "/saveconfig?config=new&h=after", 0) for n, a in experiments]
+    if ctx.tier == "thorough":
+        # every system call that is specific to the save path, as a kill point and as a failure point; the delete path;
+        # a settings file of 300 entries (a write of ~60 kB)
+        more = [("kill-at-fchmod", ["-e", "trace=fchmod", "-e", "inject=fchmod:signal=KILL:when=1"]),
+                ("eperm-on-fchmod", ["-e", "trace=fchmod", "-e", "inject=fchmod:error=EPERM:when=1"]),
+                ("eacces-on-rename", ["-e", "trace=rename,renameat,renameat2", "-e", "inject=rename,renameat,renameat2:error=EACCES:when=1"]),
+                ("eio-on-close-after-fchmod", ["-e", "trace=fchmod,close", "-e", "inject=close:error=EIO:when=40+"]),
+                ("enospc-on-every-write", ["-e", "trace=write", "-e", "inject=write:error=ENOSPC:when=1+"])]
+        for n, a in more:
+            experiments.append((n, a, "/saveconfig?config=new&h=after", 0))
+        for n, a in [experiments[0][:2], experiments[1][:2], more[0], more[2]]:
+            experiments.append((n + ":delete", a, "/deleteconfig?config=old", 0))
+            experiments.append((n + ":300-entries", a, "/saveconfig?config=new&h=after", 300))
+    for name, sargs, request, bulk in experiments:
         shutil.rmtree(sdir, ignore_errors=True)
         child("/saveconfig?config=old&f=before")
+        if bulk:
+            # grow the file directly: same schema, many entries
+            cur = json.load(open(spath))
+            tmpl = dict(cur["configs"][0])
+            for k in range(bulk):
+                e = dict(tmpl)
+                e["name"] = "gen%d" % k
+                cur["configs"].append(e)
+            with open(spath, "w") as f:
+                json.dump(cur, f, indent=2)
         _, before = file_state()
-        child("/saveconfig?config=new&h=after", strace_args=sargs)
+        # the complete new contents for this request: the same request without a fault, on a copy
+        shutil.copy(spath, spath + ".orig")
+        child(request)
+        _, new_here = file_state()
+        shutil.copy(spath + ".orig", spath)
+        os.remove(spath + ".orig")
+        child(request, strace_args=sargs)
         st, after = file_state()
-        ok = st == "ok" and (after == before or after == new)
+        ok = st == "ok" and (after == before or after == new_here)
         ctx.extra_cov.setdefault("crash_experiments", []).append({"experiment": name, "file": st, "complete_old_or_new": ok})
         if not ok:
             ctx.violate("crash", "not-atomic:" + name, "after '%s' during a save the settings file is %s: neither the complete previous nor the complete new contents" % (name, st),
@@ -129,7 +159,7 @@ def run(ctx, replay):
         ctx.notes.append("TLC flags crash points %s of the recorded syscall sequence but no experiment reproduced a torn file (MODEL-ONLY; not reported as a violation)" % flagged)
     return ctx.finish(
         "fault_enumeration",
-        assumptions=["crash points = after every recorded system call and inside every write of the real save path (strace); the three reproduced faults are a kill at the first write to the settings file, a kill at the rename, and ENOSPC on writes to the settings file",
+        assumptions=["crash points = after every recorded system call and inside every write of the real save path (strace); the reproduced faults are a kill at the first write to the settings file, a kill at the rename, and ENOSPC on writes to the settings file; the thorough tier adds kill / EPERM at fchmod, EACCES at rename, EIO at close, ENOSPC on every write of the process, each also for the delete request and for a settings file of 300 entries",
                      "concurrent requests are serialised within one pprof process (the web UI is one process); schedules are forced with the verif gate between read and write",
                      "URL round trip is observed through the page's config menu link of the saved configuration; an option equal to its default may be elided"],
         rule="fault/crash points enumerated by TLC over the recorded syscall sequence and reproduced with strace fault injection")
